@@ -1,2 +1,3 @@
 //! Circuit layer checks (C04–C09, C15, C16, C18–C20): shared engines.
 pub mod e2;
+pub mod e6;
